@@ -13,7 +13,10 @@ TECHNIQUE = ('typestate over clang\'s AST of the C iteration helpers per preproc
              'complete-domain evaluation of small decision tables (_find_for_from_node_relations over its 4 inputs, the result dispatch of the emitted '
              'helper call over the helper\'s finite set of return constants); symbolic comparison of two expression trees (compile-time formula vs. '
              'constructed node tree); path-sensitive dataflow over generate_execution_code (label protocol) and over IterationTransform (guard dominance); '
-             'interface rules I3/I5 restricted to the iteration helpers')
+             'interface rules I3/I5 restricted to the iteration helpers; '
+             'partial evaluation of ForFromStatNode/_ForInStatNode.generate_execution_code (sa/rules/sC14.Emu: the method source interpreted over constants, unknowns named by access path and '
+             'path assumptions) giving the emitted C skeleton of every path: the `for (init; cond; incr) {` header is parsed into linear forms over bound1/bound2/step and compared with the '
+             'canonical loop of the relation pair, with an interval argument for unsigned counters; the emitted statement sequence is checked for where the target is assigned')
 DECIDES = ('(S2) in the helpers loaded by DictIterationNextNode/SetIterationNextNode every path to PyDict_Next/_PySet_NextEntry on a container passes a comparison of the '
            'remembered length with the current size whose "changed" branch raises the exception type CPython raises (RuntimeError) and returns a negative code, in every '
            'preprocessor configuration of the function; '
@@ -28,8 +31,15 @@ DECIDES = ('(S2) in the helpers loaded by DictIterationNextNode/SetIterationNext
            'and each constructed node class is the class binop_node_classes assigns to its operator; '
            '(PIN) arithmetic nodes whose semantics are filled in late from a compiler directive (DivNode/ModNode.cdivision) and that are constructed by a transform with a literal operator pin that attribute; '
            '(REV) inside IterationTransform a rewriting method that cannot iterate backwards is reached only where `reversed` is known false, every other one receives the caller\'s `reversed`, '
-           'and a method that accepts `reversed` reads it.')
-NOT_DECIDED = ('iteration counts and final loop-variable values in general (the formula itself is only compared with its sibling, not with range semantics); the C types chosen for the synthesised arithmetic '
+           'and a method that accepts `reversed` reads it; '
+           '(HDR) for each of the 8 same-direction relation pairs, with and without step, for unsigned and for other counter types: the C for-header ForFromStatNode emits makes the body see '
+           'bound1+offset(relation1) first, advance by exactly one step in the direction of the relations per iteration, and continue while `value relation2 bound2` (whether the step is taken in '
+           'the increment clause or at the top of the body), and an unsigned counter is decremented only where the preceding loop test bounds it from below by the step '
+           '(so `i >= 0` / wrap-around below zero cannot keep the loop running); '
+           '(LOOPVAR) ForFromStatNode in range() mode (from_range=True, as IterationTransform constructs it) and _ForInStatNode assign the loop target inside the loop before the body on every path, '
+           'never after the loop has finished (final value = last item; an empty loop leaves the variable untouched/unbound), and the C counter of a range() loop is not re-read from the target.')
+NOT_DECIDED = ('iteration counts in general (the reversed-range start formula is only compared with its sibling, not with range semantics; HDR decides the loop skeleton relative to the bounds it is given); '
+               'overflow of `bound + step` at the upper end of the counter type; Pyrex for-from loops with a Python target whose bounds force an unsigned counter; the C types chosen for the synthesised arithmetic '
                '(overflow of spanning types); that nothing between the size test and the table walk can run Python code; exception *messages* ("set changed size" vs CPython\'s "Set changed size"); '
                'str/bytes/C-array iteration bounds arithmetic; the enumerate() evaluation-order finding (21) belongs to C20; I6 (name-aligned order) is not armed: the emitted arguments carry no names '
                'that coincide with the C parameter names, so the mutual-swap rule would be vacuous here.')
@@ -66,7 +76,21 @@ MUTATIONS = [
     ('Cython/Compiler/Optimize.py', '_optimise_for_loop: delete `if reversed: return node` before _transform_set_iteration', 'C14-REV'),
     ('Cython/Compiler/Optimize.py', '_try_optimise_array_iteration: _transform_bytes_iteration(node, iterable) without reversed=', 'C14-REV'),
     ('Cython/Compiler/Optimize.py', '(after the fix) remove `cdivision=False` from the synthesised DivNode', 'C14-PIN  (fires on the unfixed tree today: finding 16)'),
+    ('Cython/Compiler/Nodes.py', "SEED C14a: unsigned guard `self.relation2[0] == '>'` -> `self.relation2 == '>'`", 'C14-HDR header[>= >=,unsigned]:wrap + header[> >=,unsigned]:wrap'),
+    ('Cython/Compiler/Nodes.py', 'guarded header: `+ step` dropped from the condition side only', 'C14-HDR header[> >,unsigned]:test ...'),
+    ('Cython/Compiler/Nodes.py', 'unsigned guard: `not loopvar_type.signed` -> `loopvar_type.signed`', 'C14-HDR ...unsigned]:wrap (and signed counters: nothing, the guarded form is also canonical)'),
+    ('Cython/Compiler/Nodes.py', 'plain header: condition uses self.relation1', 'C14-HDR header[< <=,*]:test ...'),
+    ('Cython/Compiler/Nodes.py', 'plain header: offset replaced by ""', 'C14-HDR header[< <,*]:first, header[> >,*]:first'),
+    ('Cython/Compiler/Nodes.py', 'incop = "%s=%s" % (incop[1], "1") (step ignored)', 'C14-HDR ...:stride'),
+    ('Cython/Compiler/Nodes.py', 'SEED C21b: post-loop target assignment `if not from_range and self.py_loopvar_node` -> `if self.py_loopvar_node`', 'C14-LOOPVAR [from_range]:after-loop'),
+    ('Cython/Compiler/Nodes.py', 'post-loop target assignment: `not from_range` -> `from_range`', 'C14-LOOPVAR [from_range]:after-loop'),
+    ('Cython/Compiler/Nodes.py', 're-synchronisation of the counter: `if not from_range and self.py_loopvar_node` -> `if self.py_loopvar_node`', 'C14-LOOPVAR [from_range]:counter'),
+    ('Cython/Compiler/Nodes.py', 'in-loop assignment: RawCNameExprNode only `if ... and not from_range`', 'C14-LOOPVAR [from_range]:in-loop'),
+    ('Cython/Compiler/Nodes.py', '_ForInStatNode: target assignment moved behind code.putln("}")', 'C14-LOOPVAR _ForInStatNode:in-loop + after-loop'),
     # behaviour preserving, silent:
+    ('Cython/Compiler/Nodes.py', "unsigned guard written as `self.relation2 in ('>=', '>')` / as `not (not is_int or signed or not self.relation2.startswith('>'))`", 'silent'),
+    ('Cython/Compiler/Nodes.py', 'plain header as an f-string with renamed locals (counter, rel2)', 'silent'),
+    ('Cython/Compiler/Nodes.py', 'post-loop assignment moved into a helper method called under `if not from_range:`; guard as `not (not pyrex_loop or self.py_loopvar_node is None)`; in-loop assignment restructured with if/else', 'silent'),
     ('Cython/Compiler/Nodes.py', 'rename local old_loop_labels -> saved_labels in WhileStatNode; reorder the rows of relation_table', 'silent'),
     ('Cython/Compiler/Optimize.py', '_build_range_step_calculation: MulNode operands swapped (abs_step * q -> q * abs_step), local step_calculation_node renamed', 'silent'),
     ('Cython/Utility/Optimize.c', 'size test rewritten as `if (likely(orig_length == PyDict_Size(iter_obj))) {} else { raise; return -1; }`', 'silent'),
